@@ -40,7 +40,7 @@ AcfOk(m, h, limit) ==
   /\ G(m, h, "Can", "acf_msg_length") * 4 >= HdrLen["Can"] + G(m, h, "Can", "pad")
   /\ h + G(m, h, "Can", "acf_msg_length") * 4 <= limit
 \* what a malformed packet "decodes to": frame-shaped (TLC can compare it with real frames) but equal to no frame (flags are 0/1)
-BadPacket == << [ id |-> << >>, eff |-> 2, rtr |-> 2, fdf |-> 2, brs |-> 2, esi |-> 2, data |-> << >> ] >>
+BadPacket == << [ id |-> <<0, 0, 0, 0>>, eff |-> 2, rtr |-> 2, fdf |-> 2, brs |-> 2, esi |-> 2, data |-> << >> ] >>
 RECURSIVE Walk(_, _, _)
 Walk(m, h, limit) ==                     \* frames of the ACF messages in m[h..limit); "bad" if malformed
   IF h = limit THEN << >>
